@@ -130,7 +130,9 @@ class ProgressIndicator(object):
 
         try:
             yield self
-        except (Exception, KeyboardInterrupt):
+        except BaseException:
+            # Whatever ends the block (SystemExit and GeneratorExit included) must stop
+            # and join the spinner: it is a non-daemon thread and would keep running
             self._io.write_line("")
 
             self._auto_running.set()
